@@ -127,12 +127,18 @@ def pool(V):
     p["us_1"] = UnitSystem("a", "A", {"length": "m"})
     p["us_1b"] = UnitSystem("a", "A", {"length": "m"})
     p["us_2"] = UnitSystem("b", "B", {"length": "cm"})
+    p["us_1_superset"] = UnitSystem("a", "A", {"length": "m", "time": "s"})
+    p["us_1_other_unit"] = UnitSystem("a", "A", {"length": "cm"})
     p["py_None"] = None
     p["py_str"] = "m"
     p["py_int"] = 1
     p["py_tuple"] = ()
     p["py_float"] = 1.5
     p["py_list"] = [1.0, 2.0]
+    p["py_pair_zero"] = (1, 0)
+    p["py_pair_str"] = ("1", "2")
+    p["py_list_none"] = [None, None]
+    p["py_pair_ok"] = (1, 2)
     return p
 
 
